@@ -314,8 +314,7 @@ def cfg_tetra(tier, seed):
         out.append(dict(N=5, kind="general", fixed=4, symcoords=2, cell="t+"))
         out.append(dict(N=5, kind="general", fixed=4))
         out.append(dict(N=6, kind="general", fixed=5))
-        out.append(dict(N=5, kind="general", fixed=3))
-        out.append(dict(N=6, kind="general", fixed=4))
+        out.append(dict(N=5, kind="general", fixed=3, symcoords=2))     # two free particles, two free coordinates each
     return out
 
 
